@@ -56,7 +56,12 @@ def main(tier):
     nflt = 40 if quick else 800
     flts, fsim = layerb.generate_behaviours("PyDRexC08", "PyDRexC08FaultSim", nflt, 16, SEED + 9)
     chk.add_tlc("PyDRexC08(simulate, client faults)", fsim, f"{nflt} random interleavings with failing single / bulk updates in between (UpdateFaulted, UpdateAllFaulted)")
-    sims = sims + flts
+    nlife = 40 if quick else 800
+    life_mc = run_tlc("PyDRexC08", "PyDRexC08Life", workers=4, timeout=900)
+    chk.add_tlc("PyDRexC08(object life cycle)", life_mc, "every interleaving of updates, failing updates and ONE Clone (deepcopy / pickle) up to 3 calls: LifeNonInterference (a clone evolves as the solo mineral its original was), LifeTwins, FailureAtomic")
+    lifes, lsim = layerb.generate_behaviours("PyDRexC08", "PyDRexC08LifeSim", nlife, 13, SEED + 10)
+    chk.add_tlc("PyDRexC08(simulate, object life cycle)", lsim, f"{nlife} random interleavings in which a mineral is duplicated (copy.deepcopy / pickle round trip) and original and copy go on independently")
+    sims = sims + flts + lifes
     pd = quiet_pydrex()
     events, comp = layerb.run_behaviours(chk, "C08", behs + sims, fcheck=False)
     chk.cov["bound_terms"] = dict(orientations=len(comp.omap), fractions=len(comp.fmap))
